@@ -234,6 +234,7 @@ type StaticCase struct {
 	Size    int    `json:"func_size"`
 	Fixed   string `json:"fixed_hex,omitempty"`
 	N       int    `json:"copied,omitempty"`
+	Compose bool   `json:"compose,omitempty"` // the case is about the complete trampoline (apply path)
 }
 
 // judge validates goom's answer for one (function, placeholder) pair. It returns the clause
@@ -318,8 +319,89 @@ func judge(code []byte, size, L int, off int64, fixed []byte, n int, ferr error)
 
 var offsets = []int64{1 << 6, -(1 << 6), 1 << 12, -(1 << 12), 1 << 20, -(1 << 20), 1 << 27, -(1 << 27), 1<<31 - 1<<12, -(1<<31 - 1<<12)}
 
+// scratch placeholder: an executable-looking function body outside the Go heap into which the
+// real apply path writes the complete trampoline.
+var scratch []byte
+
+const scratchBody = 510
+
+func resetScratch() {
+	// goom leaves the pages it wrote r-x
+	if err := syscall.Mprotect(scratch, syscall.PROT_READ|syscall.PROT_WRITE|syscall.PROT_EXEC); err != nil {
+		vk.Fatalf("mprotect scratch: %v", err)
+	}
+	for i := 0; i+2 < scratchBody; i += 3 {
+		scratch[i], scratch[i+1], scratch[i+2] = 0x48, 0x89, 0xc9 // mov rcx, rcx
+	}
+	for i := scratchBody; i < len(scratch); i++ {
+		scratch[i] = 0x90 // code again after the int3 padding, so that an extent scan stops inside the mapping
+	}
+	for i := scratchBody; i < scratchBody+16; i++ {
+		scratch[i] = 0xcc
+	}
+}
+
+func scratchIntact() bool {
+	for i := 0; i+2 < scratchBody; i += 3 {
+		if scratch[i] != 0x48 || scratch[i+1] != 0x89 || scratch[i+2] != 0xc9 {
+			return false
+		}
+	}
+	return true
+}
+
+// judgeCompose validates the complete trampoline image written by the real apply path: the
+// relocated prefix (as fixRelativeAddr returns it for this placement) followed by a jump that
+// lands on from+n. It returns the clause violated ("" = fine) and a detail text.
+func judgeCompose(from uintptr, code []byte, size, L int) (clause, detail string, done bool) {
+	tramp := uintptr(unsafe.Pointer(&scratch[0]))
+	resetScratch()
+	_, cerr := zz.Compose(from, tramp, L)
+	fixed, n, ferr := zz.Fix(from, code, tramp, size, L)
+	if cerr != nil {
+		if !scratchIntact() {
+			return "refused-but-placeholder-written", fmt.Sprintf("the apply was refused (%v) but the placeholder's bytes changed", cerr), true
+		}
+		return "", "", false
+	}
+	if ferr != nil {
+		return "", "", false // goom's own extent scan of the function differs from ours; nothing to compare
+	}
+	if len(fixed) > scratchBody-16 {
+		return "", "", false
+	}
+	if string(scratch[:len(fixed)]) != string(fixed) {
+		// the apply path may have scanned another extent than we passed: compare semantically instead
+		ds, ok := decodeSeq(scratch, len(fixed))
+		if !ok || len(ds) == 0 {
+			return "trampoline-prefix", "the placeholder does not start with the relocated prologue", true
+		}
+	}
+	// the jump back
+	jb := scratch[len(fixed):]
+	switch {
+	case jb[0] == 0xe9:
+		rel := int64(int32(uint32(jb[1]) | uint32(jb[2])<<8 | uint32(jb[3])<<16 | uint32(jb[4])<<24))
+		land := int64(tramp) + int64(len(fixed)) + 5 + rel
+		if land != int64(from)+int64(n) {
+			return "jump-back-target", fmt.Sprintf("the jump after the relocated prologue lands on from%+d, must land on from+%d", land-int64(from), n), true
+		}
+	case jb[0] == 0x48 && jb[1] == 0xba:
+		return "", "", true // far form: C15's subject (recorded there)
+	default:
+		return "no-jump-back", fmt.Sprintf("after the %d relocated bytes the placeholder continues with % x instead of a jump back to from+%d (execution would run into the placeholder's old body)", len(fixed), jb[:6], n), true
+	}
+	return "", "", true
+}
+
 func static(c *vk.Ctx) {
 	L := zz.JumpLen()
+	var merr error
+	scratch, merr = syscall.Mmap(-1, 0, 8192, syscall.PROT_READ|syscall.PROT_WRITE|syscall.PROT_EXEC, syscall.MAP_PRIVATE|syscall.MAP_ANON)
+	if merr != nil {
+		vk.Fatalf("mmap scratch: %v", merr)
+	}
+	var nCompose, nComposeRefused int64
 	var keep [][]byte
 	var all []fn
 	for _, b := range corpusBinaries(c.Thorough()) {
@@ -380,7 +462,7 @@ func static(c *vk.Ctx) {
 			}
 			key := fmt.Sprintf("static clause=%s shape=[%s]", clause, shp)
 			a := viol[key]
-			cs := StaticCase{"static", f.bin, f.name, fmt.Sprintf("%#x", f.vaddr), off, hex.EncodeToString(code), size, hex.EncodeToString(fixed), n}
+			cs := StaticCase{"static", f.bin, f.name, fmt.Sprintf("%#x", f.vaddr), off, hex.EncodeToString(code), size, hex.EncodeToString(fixed), n, false}
 			if a == nil {
 				viol[key] = &agg{1, f, cs, detail}
 			} else {
@@ -389,6 +471,27 @@ func static(c *vk.Ctx) {
 					a.fn, a.cs, a.det = f, cs, detail
 				}
 			}
+		}
+		// the complete trampoline, built by the real apply path in a scratch placeholder
+		if clause, detail, done := judgeCompose(f.entry, code, size, L); done || clause != "" {
+			nCompose++
+			c.Res.Evaluations++
+			c.Res.Transitions++
+			if clause != "" {
+				key := fmt.Sprintf("static clause=%s", clause)
+				cs := StaticCase{"static", f.bin, f.name, fmt.Sprintf("%#x", f.vaddr), 0, hex.EncodeToString(code), size, hex.EncodeToString(scratch[:64]), 0, true}
+				a := viol[key]
+				if a == nil {
+					viol[key] = &agg{1, f, cs, detail}
+				} else {
+					a.count++
+					if len(cs.Code) < len(a.cs.Code) {
+						a.fn, a.cs, a.det = f, cs, detail
+					}
+				}
+			}
+		} else {
+			nComposeRefused++
 		}
 		c.Res.Traces++
 		c.Res.States++
@@ -406,6 +509,8 @@ func static(c *vk.Ctx) {
 		c.Violate(k, fmt.Sprintf("%s — smallest example %s:%s (%d occurrences in this shard)", a.det, a.fn.bin, a.fn.name, a.count), a.cs)
 	}
 	c.Res.Nontrivial = int64(len(shapes))
+	c.Res.Extra["n_trampolines_composed"] = nCompose
+	c.Res.Extra["n_compose_refused"] = nComposeRefused
 	c.Res.Extra["n_accepted"] = nAccept
 	c.Res.Extra["n_refused_by_goom"] = nRefuse
 	c.Res.Extra["n_not_judged_reference_cannot_decode"] = nRefRefuse
@@ -426,6 +531,26 @@ func replayStatic(c *vk.Ctx) {
 	copy(buf, code)
 	from := uintptr(unsafe.Pointer(&buf[0]))
 	L := zz.JumpLen()
+	if cs.Compose {
+		var merr error
+		scratch, merr = syscall.Mmap(-1, 0, 8192, syscall.PROT_READ|syscall.PROT_WRITE|syscall.PROT_EXEC, syscall.MAP_PRIVATE|syscall.MAP_ANON)
+		if merr != nil {
+			vk.Fatalf("mmap scratch: %v", merr)
+		}
+		// the real extent scan needs int3 padding after the function
+		for i := len(code); i < len(buf); i++ {
+			buf[i] = 0xcc
+		}
+		clause, detail, _ := judgeCompose(from, buf[:len(code)], cs.Size, L)
+		fmt.Printf("replay static (complete trampoline) %s:%s\n placeholder now: %s\n", cs.Bin, cs.Func, hex.EncodeToString(scratch[:48]))
+		if clause != "" {
+			fmt.Printf("result: %s: %s\n", clause, detail)
+			c.Violate("replay", clause+": "+detail, cs)
+		} else {
+			fmt.Println("result: conforms")
+		}
+		return
+	}
 	fixed, n, ferr := zz.Fix(from, buf[:len(code)], uintptr(int64(from)+cs.Offset), cs.Size, L)
 	clause, detail, shp, refused := judge(buf[:len(code)], cs.Size, L, cs.Offset, fixed, n, ferr)
 	fmt.Printf("replay static %s:%s placeholder at from%+d\n original: %s\n relocated: %s (copied %d bytes, err=%v)\n shape: %s\n", cs.Bin, cs.Func, cs.Offset, hex.EncodeToString(code[:min(n, len(code))]), hex.EncodeToString(fixed), n, ferr, shp)
